@@ -625,6 +625,46 @@ def template_provenance(repo, fi, recv):
                  'reinterpreted as format directives' % norm(recv, 50))
 
 
+def cli_flag_values_verbatim(chk, rid):
+  """A flag value given on the command line reaches FlagValue character for
+  character: in logica.ReadUserFlags the VALUE part of each (option, value)
+  pair goes into the result as it is (only the option name loses its `--`)."""
+  repo = chk.repo
+  v = FnView(repo, 'logica.ReadUserFlags')
+  rets = [r for n, r in v.returns() if r.value is not None]
+  if not rets:
+    raise AnalysisError('ReadUserFlags: no return recognised')
+  changed = None
+  n_vals = 0
+  for r in rets:
+    e = v.expand(r.value, 3)
+    for x in ast.walk(e):
+      if isinstance(x, ast.DictComp) and isinstance(x.generators[0].target, ast.Tuple) and \
+          len(x.generators[0].target.elts) == 2 and isinstance(x.generators[0].target.elts[1], ast.Name):
+        n_vals += 1
+        val_name = x.generators[0].target.elts[1].id
+        if not (isinstance(x.value, ast.Name) and x.value.id == val_name):
+          changed = x.value
+  if not n_vals:
+    # the same mapping written as a loop
+    for x in walk_local(v.fi.node):
+      if isinstance(x, ast.For) and isinstance(x.target, ast.Tuple) and len(x.target.elts) == 2 \
+          and isinstance(x.target.elts[1], ast.Name):
+        val_name = x.target.elts[1].id
+        for st in ast.walk(x):
+          if isinstance(st, ast.Assign) and isinstance(st.targets[0], ast.Subscript):
+            n_vals += 1
+            if not (isinstance(st.value, ast.Name) and st.value.id == val_name):
+              changed = st.value
+  if not n_vals:
+    raise AnalysisError('ReadUserFlags: the mapping from options to flag values is not recognised')
+  chk.ob(rid, changed is None, None,
+         'command-line flag values are handed on unchanged',
+         'the value of a flag is rewritten on its way from the command line (`%s`): spaces, '
+         'quotes or line breaks the user passed do not reach FlagValue character for character'
+         % (norm(changed, 60) if changed is not None else ''), fi=v.fi, node=changed)
+
+
 def atomic_template_application(chk, rid):
   """QL.Function / QL.Infix fill a template in one formatting operation.
   Sequential textual substitution (`.replace` chains) re-scans text that was
@@ -900,6 +940,7 @@ def run(chk):
            '${flag} expansion is bounded and the only expanded form',
            min_instances=6)
   flags(chk, 'C10-R4')
+  cli_flag_values_verbatim(chk, 'C10-R4')
   chk.rule('C10-R5', 'literal forms: the scanner and ParseString agree on '
            'which quote kinds interpret backslash escapes', min_instances=1)
   scanner_literal_agreement(chk, 'C10-R5')
